@@ -258,6 +258,33 @@ def coq_eval_cases(header, case_terms, case_type, fn, shard=250, timeout=900, wo
     return results, faults
 
 
+def map_isolated(fn, items, chunk=6, timeout=900, workers=None):
+    """[fn(x) for x in items] with every chunk evaluated in its own forked child (several in flight).  Returns a list of
+    ("ok", result) | ("aborted", reason): when a child dies (GLPK aborts the process on an internal assertion) or runs
+    out of time, its items are re-run one by one, so exactly the offending item is reported as aborted."""
+    from concurrent.futures import ThreadPoolExecutor
+    items = list(items)
+    if not items:
+        return []
+    chunks = [items[i:i + chunk] for i in range(0, len(items), chunk)]
+
+    def many(xs):
+        return [fn(x) for x in xs]
+
+    def do(xs):
+        kind, val = run_isolated(many, xs, timeout=timeout)
+        if kind == "ok" and isinstance(val, list) and len(val) == len(xs):
+            return [("ok", v) for v in val]
+        out = []
+        for x in xs:
+            k, v = run_isolated(fn, x, timeout=timeout)
+            out.append(("ok", v) if k == "ok" else ("aborted", str(v)[:300]))
+        return out
+    with ThreadPoolExecutor(max_workers=workers or max(1, min(JOBS, 8))) as ex:
+        parts = list(ex.map(do, chunks))
+    return [r for part in parts for r in part]
+
+
 def run_isolated(fn, arg, timeout=600):
     """Run fn(arg) in a forked child and return ("ok", result) | ("aborted", reason).
     GLPK now and then aborts the whole process on an internal assertion (e.g. bflib/sgf.c); a check must
